@@ -104,7 +104,7 @@ Definition package_check (fs : list func) : option err :=
   if has then Some (ECase (map snd (filter (fun kv => Nat.ltb 1 (length (snd kv))) names))) else None.
 
 (* ---------------------------------------------------------------- setImports: order of the imports *)
-(* getNamedImports: aliased imports in sorted order of their paths; then the root imports in source order *)
+(* getNamedImports: aliased imports in sorted order; then the root imports in source order *)
 Fixpoint insert_by {A} (ltb : A -> A -> bool) (x : A) (l : list A) : list A :=
   match l with
   | [] => [x]
@@ -113,9 +113,22 @@ Fixpoint insert_by {A} (ltb : A -> A -> bool) (x : A) (l : list A) : list A :=
 Definition isort {A} (ltb : A -> A -> bool) (l : list A) : list A := fold_right (insert_by ltb) [] l.
 
 Definition named (i : import) : bool := negb (is_empty (i_alias i)).
+
+(* setImports collects the aliased imports in a map keyed by (path, alias) (commit 5f65f03: one package
+   may be imported under several aliases): writing the same pair twice is one import.  The bare-tag
+   imports are appended to a slice, one entry per occurrence. *)
+Definition same_import (a b : import) : bool :=
+  String.eqb (i_path a) (i_path b) && String.eqb (i_alias a) (i_alias b).
+Definition dedup_imports (l : list import) : list import :=
+  fold_left (fun acc x => if existsb (same_import x) acc then acc else acc ++ [x]) l [].
+Definition named_imports (pk : pkg) : list import := dedup_imports (filter named (imports pk)).
+Definition root_imports (pk : pkg) : list import := filter (fun i => negb (named i)) (imports pk).
+
+(* getNamedImports visits the pairs sorted by path, then alias *)
+Definition import_ltb (a b : import) : bool :=
+  if String.eqb (i_path a) (i_path b) then String.ltb (i_alias a) (i_alias b) else String.ltb (i_path a) (i_path b).
 Definition ordered_imports (pk : pkg) : list import :=
-  isort (fun a b => String.ltb (i_path a) (i_path b)) (filter named (imports pk)) ++
-  filter (fun i => negb (named i)) (imports pk).
+  isort import_ltb (named_imports pk) ++ root_imports pk.
 
 (* every import goes through Package(): the first package with an internal clash ends the parse *)
 Fixpoint first_err {A} (f : A -> option err) (l : list A) : option err :=
@@ -216,7 +229,9 @@ Definition resolve (pk : pkg) (w : string) : option func :=
 
 (* ---------------------------------------------------------------- the property's vocabulary *)
 (* every name one can type: targets, namespace targets, imported targets (source order) and alias keys *)
-Definition src_funcs (pk : pkg) : list func := local_funcs pk ++ flat_map import_funcs (imports pk).
+(* the imports of the package: each (path, alias) pair once, each bare-tag import as often as written *)
+Definition effective_imports (pk : pkg) : list import := named_imports pk ++ root_imports pk.
+Definition src_funcs (pk : pkg) : list func := local_funcs pk ++ flat_map import_funcs (effective_imports pk).
 Definition alias_keys (pk : pkg) : list string := map fst (alias_map (aliases pk)).
 Definition runnable_names (pk : pkg) : list string := map target_name (src_funcs pk) ++ alias_keys pk.
 
